@@ -208,3 +208,53 @@ func TestVerifReplayDeleteAbsent(t *testing.T) {
 	}
 	fmt.Printf("REPLAY PASS scenario: 3 documents, DeleteById of an absent id (result %v): Count = %d = len(FindAll)\n", err, n)
 }
+
+// FindById(c, id) only ever returns a document whose _id is id (C12): an update that rewrites _id must not
+// leave the document stored under the key of its former id.
+func TestVerifReplayUpdateRewritesId(t *testing.T) {
+	db, err := Open(t.TempDir())
+	if err != nil {
+		t.Fatal(err)
+	}
+	defer db.Close()
+	const other = "0d8b1f0c-5b0e-4b57-9d3e-2f6f3f1d7a11"
+	failed := 0
+	check := func(what string, id string, opErr error) {
+		doc, _ := db.FindById("c", id)
+		if doc != nil && doc.ObjectId() != id {
+			fmt.Printf("REPLAY FAIL scenario: %s (result %v): FindById(%q) returns a document whose _id is %q\n", what, opErr, id, doc.ObjectId())
+			failed++
+		} else {
+			fmt.Printf("REPLAY PASS scenario: %s (result %v): the document under %q still carries that _id\n", what, opErr, id)
+		}
+	}
+	db.CreateCollection("c")
+	mk := func() string {
+		doc := d.NewDocument()
+		doc.Set("x", 1)
+		id, err := db.InsertOne("c", doc)
+		if err != nil {
+			t.Fatal(err)
+		}
+		return id
+	}
+	id1 := mk()
+	err = db.UpdateById("c", id1, func(doc *d.Document) *d.Document {
+		n := doc.Copy()
+		n.Set(d.ObjectIdField, other)
+		return n
+	})
+	check("UpdateById with an updater that sets _id to another valid id", id1, err)
+	id2 := mk()
+	err = db.Update(query.NewQuery("c").Where(query.Field(d.ObjectIdField).Eq(id2)), map[string]interface{}{d.ObjectIdField: other})
+	check("Update with an update map that sets _id to another valid id", id2, err)
+	id3 := mk()
+	err = db.UpdateFunc(query.NewQuery("c").Where(query.Field(d.ObjectIdField).Eq(id3)), func(doc *d.Document) *d.Document {
+		doc.Set(d.ObjectIdField, other)
+		return doc
+	})
+	check("UpdateFunc whose updater rewrites _id in place and returns its argument", id3, err)
+	if failed > 0 {
+		t.Fatal("an update stored a document under a key different from its _id")
+	}
+}
